@@ -300,6 +300,8 @@ FORMAT_FAULTS = {
         "timestamp-infinity": set_k(sn_timestamp=float("inf")), "timestamp-minus-infinity": set_k(sn_timestamp=float("-inf")), "timestamp-1e300": set_k(sn_timestamp=1e300),
         "leaf-cn-other-san-pattern": lambda s, r: s.k.update(sn_cn=r.choice(["integrity.attacker.example", "attest.android.com.evil.example", "Attest.Android.Com "]),
                                                               sn_san=[r.choice(["*.com", "*", "*.*.com", "attest.android.*", "a*.[a-z]ndroid.co?", "attest.android.com.evil.example", "*.attest.android.com"])]),
+        "nonce-non-ascii": lambda s, r: s.k.update(sn_nonce=r.choice(["\u0410AAA", "\u00e9", "n\u043ence", "AAAA\u200b", "\U0001f600", "\u0391\u0392\u0393\u0394" * 11, "AAAA\u00a0"])),
+        "nonce-not-a-string": lambda s, r: s.k.update(sn_nonce=r.choice([5, None, True, ["AAAA"], {"nonce": "AAAA"}, 1.5])),
         "timestamp-in-another-unit": lambda s, r: s.k.update(sn_timestamp=r.choice([s.now - 2, float(s.now) - 1.5, (s.now - 2) * 10 ** 6, (s.now - 2) * 10 ** 9, (s.now - 2) // 60, (s.now - 2) * 1000 - 2 ** 32, (s.now - 2) * 1000 + 2 ** 32,
                                                                                    -((s.now - 2) * 1000), (s.now - 2) * 1000 + 2 ** 64])),
         "timestamp-nan": set_k(sn_timestamp=float("nan")), "timestamp-old-cts-false": set_k(sn_timestamp=(T0 - 3600) * 1000, sn_cts=False),
@@ -308,7 +310,7 @@ FORMAT_FAULTS = {
 # entries that make an inner structure MALFORMED (not a well-formed response rejected for a semantic reason): C19 does not demand a
 # library exception for them (observations O3/O4 in DESIGN section 4): an attested Name too short to carry its algorithm id makes the
 # TPM structure parser raise KeyError; a credential key that is no point of its declared curve makes `cryptography` raise ValueError
-MALFORMED_STRUCTURE = {"attested-name-empty", "credential-key-other-curve-same-xy"}
+MALFORMED_STRUCTURE = {"attested-name-empty", "credential-key-other-curve-same-xy", "client-data-malformed-affix-not-signed"}      # (the last: client data that is no UTF-8 / no JSON text - observation O2)
 # faults that only make sense for some credential key families
 NEEDS_FAMILY = {"ecc-point-mismatch": "ec", "ecc-curve-mismatch": "ec", "ecc-curve-unmappable": "ec"}
 # entries known to be accepted by the unchanged implementation (genuine defects, see DESIGN section 4)
